@@ -251,7 +251,14 @@ _pm = Part("ref-multi-recipient", h_ref_multi, split_depth=2)
 _pm.single_bucket_ok = True
 _pz = Part("zip-framing", h_zip_framing, split_depth=2)
 _pz.single_bucket_ok = True
+def h_threads(ctx):
+    """Interoperability while a second call runs: every token joserfc encrypts under a schedule is decrypted by the reference
+    (and by joserfc); operations, shared objects and oracle are those of C04's thread part (a smaller menu in the quick tier)."""
+    return c04.h_threads(ctx, menu_idx=None if config.thorough() else (1, 3, 4, 7))
+
+
 PARTS = [
+    Part("thread-schedules", h_threads, bound={"quick": 1, "thorough": 2}, split_depth=2, budget={"quick": 200, "thorough": 3000}, engine="E3"),
     Part("ref-to-joserfc", h_from_ref, bound={"quick": 1, "thorough": 2}, split_depth=2, budget={"quick": 150, "thorough": 2400}),
     Part("joserfc-to-ref", h_to_ref, bound={"quick": 1, "thorough": 2}, split_depth=2, budget={"quick": 150, "thorough": 2400}),
     _pm, _pv, _pz,
